@@ -80,8 +80,8 @@ def _client_ops(client, ops, model, what, state):
       saved = dict(targets.CALLS)
       try:
         want = ('value', model.ev(e))
-      except ValueError as ex:
-        want = ('exc', 'ValueError', str(ex))
+      except (ValueError, KeyError) as ex:
+        want = ('exc', type(ex).__name__, str(ex))
       targets.CALLS.clear()
       targets.CALLS.update(saved)
       if isinstance(want[1], c17.Handle):
@@ -116,7 +116,15 @@ def _client_ops(client, ops, model, what, state):
       elif k == 'ro_attr':
         got, want = answer(lambda: getattr(ro, op[2]).result_()), getattr(mo, op[2])
       elif k == 'ro_item':
-        got, want = answer(lambda: ro[op[2]].result_()), mo[op[2]]
+        got = answer(lambda: ro[op[2]].result_())
+        try:
+          want = mo[op[2]]
+        except KeyError as ex:
+          if got[0] in ('timeout',) or (got[0] == 'exc' and got[1] == 'RuntimeError'):
+            check(state['shutdown'], 'timeout-without-shutdown', f'{w}: {got}')
+            continue
+          check(got == ('exc', 'KeyError', str(ex)), 'remote-exception-differs-from-local', f'{w}: remote {got!r}, local object raises KeyError({ex.args[0]!r})')
+          continue
       else:
         got, want = answer(lambda: ro(op[2]).result_()), mo(op[2])
       if got[0] == 'timeout' or (got[0] == 'exc' and got[1] == 'RuntimeError'):
@@ -126,7 +134,8 @@ def _client_ops(client, ops, model, what, state):
             '(the object must stay on the server and keep its state between calls)')
     elif k == 'iter':
       n, fail_at = op[1], op[2]
-      got = answer(lambda: client.get_result(lf.trace(targets.gen_range)(n, fail_at, 'R', 'T', lazy_result_=True)))
+      ret = op[3] if len(op) > 3 else 'R'
+      got = answer(lambda: client.get_result(lf.trace(targets.gen_range)(n, fail_at, ret, 'T', lazy_result_=True)))
       if got[0] != 'value':
         check(state['shutdown'], 'remote-iterator-not-created', f'{w}: {got}')
         continue
@@ -150,9 +159,10 @@ def _client_ops(client, ops, model, what, state):
       check(items == [['T', i] for i in range(upto)], 'remote-iteration-differs', f'{w}: got {items}')
       if fail_at is not None and fail_at < n:
         exc_seen += 1
-        check(end is not None and end[0] == 'exc' and end[1] == 'KeyError', 'remote-iteration-wrong-end', f'{w}: ended with {end!r}')
+        check(end is not None and end[:3] == ('exc', 'KeyError', str(KeyError(f'fail at {fail_at}'))), 'remote-iteration-wrong-end',
+              f'{w}: ended with {end!r}, the generator raises KeyError("fail at {fail_at}")')
       else:
-        check(end == ('stop', 'R'), 'remote-iteration-wrong-end', f'{w}: ended with {end!r}, want StopIteration("R")')
+        check(end == ('stop', ret) and type(end[1]) is type(ret), 'remote-iteration-wrong-end', f'{w}: ended with {end!r}, want StopIteration({ret!r})')
         again = answer(lambda: next(it))
         check(again[0] in ('stop', 'timeout'), 'exhaustion-not-stable', f'{w}: next() after exhaustion gave {again!r}')
     elif k == 'queue':
@@ -243,7 +253,8 @@ def strat(tier):
           st.tuples(st.just('ro_attr'), st.integers(0, 3), st.sampled_from(['hits', 'base'])).map(list),
           st.tuples(st.just('ro_item'), st.integers(0, 3), st.just('k')).map(list),
           st.tuples(st.just('ro_ocall'), st.integers(0, 3), st.integers(0, 5)).map(list),
-          st.tuples(st.just('iter'), st.integers(0, 4), st.one_of(st.none(), st.integers(0, 4))).map(list),
+          st.tuples(st.just('iter'), st.integers(0, 4), st.one_of(st.none(), st.integers(0, 4)), st.sampled_from(['R', 7, None, 2.5])).map(list),
+          st.tuples(st.just('ro_item'), st.integers(0, 3), st.sampled_from(['missing', 'zz'])).map(list),
           st.tuples(st.just('queue'), st.integers(0, 4), st.sampled_from(['get', 'get_batch'])).map(list))
       ops = draw(st.lists(op, min_size=1, max_size=maxops))
       if nclients > 1:
